@@ -291,12 +291,15 @@ def run(ctx):
     for name, drv in [(n, 'opdrv.cpp') for n in SAN_WORKLOADS] + [(n, 'wkd_drv.cpp') for n in WKD_WORKLOADS] + [('c15', 'scheme_drv.cpp'), ('c16', 'scheme_drv.cpp')]:
         mod = importlib.import_module(name)
         for sc in san_cfgs:
-            sub = harness.Ctx(name.upper(), ctx.tier, ctx.seed)
+            # the thorough volume goes to the primary sanitizer build; the 32-bit-word and gcc sanitizer builds (5-10x slower per
+            # pairing) repeat the quick-tier workload
+            primary = sc == san_cfgs[0]
+            sub = harness.Ctx(name.upper(), ctx.tier if primary else 'quick', ctx.seed)
             if name == 'c15':
                 ex = session.build_exes({'prod': (sc, drv, []), 'san': (sc, drv, [])})
             else:
                 ex = session.build_exes({sc: (sc, drv, [])})
-            only = [0, 1, 9] if ctx.quick else [0, 1, 2, 3, 4, 5, 8, 9, 14, 15]
+            only = [0, 1, 9] if (ctx.quick or not primary) else [0, 1, 2, 3, 4, 5, 8, 9, 14, 15]
             try:
                 session.run_shards(sub, mod.worker, 16, ex, {'cfgs': [sc]}, only=only)
             except harness.HarnessError as e:
